@@ -1,9 +1,12 @@
 package main
 
 import (
+	"context"
 	"fmt"
 	"net"
 	"time"
+
+	dht "github.com/anacrolix/dht/v2"
 )
 
 // Generators and per-property profiles for the server-boundary engine.
@@ -207,11 +210,60 @@ func (sc *srvScen) mixedQueries(n int) {
 				q.q = "ping"
 			}
 		}
-		sc.send(src, q)
+		if q.y == "q" && r.Intn(12) == 0 && src.Port != 0 && !sc.isBlocked(src.IP) {
+			sc.crossingQuery(src, q)
+		} else {
+			sc.send(src, q)
+		}
 		sc.r.hist("query/" + q.y + "/" + q.q)
 		sc.r.count(fmt.Sprintf("%s|%s|%x|%v|%v|%d", q.y, q.q, q.t, q.hasA, q.ro, len(src.IP)), true)
 	}
 	sc.veto = false
+}
+
+// The node has a query of its own outstanding to src when src's query arrives, and src happens to use
+// the very transaction ID the node used (IDs are small counters on both sides): it is still a query
+// and must be answered like any other; it is not the response the node is waiting for.
+func (sc *srvScen) crossingQuery(src *net.UDPAddr, q *qspec) {
+	w0 := sc.conn.numWrites()
+	done := make(chan dht.QueryResult, 1)
+	ctx, cancel := context.WithCancel(context.Background())
+	go func() { done <- sc.s.Query(ctx, dht.NewAddr(src), "ping", dht.QueryInput{NumTries: 1}) }()
+	var d dgram
+	if !waitFor(func() bool {
+		for _, w := range sc.conn.writes()[w0:] {
+			if sameUDP(w.Addr, src) {
+				if x := parseDgram(w); x.ok && x.y == "q" {
+					d = x
+					return true
+				}
+			}
+		}
+		return false
+	}, 5*time.Second) {
+		cancel()
+		<-done
+		return
+	}
+	sc.op(fmt.Sprintf("SRV reg %s %s", addrOp(src), hx(d.t)), "ok")
+	sc.ev("the node has a ping outstanding to %s with t=%x; a query with the same t arrives from there", src, d.t)
+	q.t = append([]byte{}, d.t...)
+	sc.send(src, q)
+	select {
+	case res := <-done:
+		if res.Err == nil {
+			sc.viol("C07", "query completed by a datagram that is not a response")
+		}
+	case <-time.After(300 * time.Microsecond):
+	}
+	cancel()
+	select {
+	case <-done:
+	case <-time.After(5 * time.Second):
+		sc.viol("C14", "cancelled query did not return")
+	}
+	sc.op(fmt.Sprintf("SRV done %s %s", addrOp(src), hx(d.t)), "ok")
+	sc.r.hist("query/crossing-same-tid")
 }
 
 // ---- profile: table histories (C05, C06) ----
